@@ -67,7 +67,24 @@ def main():
     os._exit(rc)
 
 
+def _guarded():
+    # whatever goes wrong in the machinery itself (the tree does not compile, an import fails, ...) is exit 2, never a silent 0
+    try:
+        main()
+    except SystemExit as e:
+        sys.stdout.flush()
+        code = e.code if isinstance(e.code, int) else 2
+        os._exit(code if code else 2 if e.code not in (0, None) else 0)
+    except BaseException:
+        import traceback
+        traceback.print_exc()
+        print("MACHINERY-FAULT the check itself failed (see the traceback above)")
+        sys.stdout.flush()
+        os._exit(2)
+
+
 if __name__ == "__main__":
-    t = threading.Thread(target=main)
+    t = threading.Thread(target=_guarded)
     t.start()
     t.join()
+    os._exit(2)   # main() always leaves through os._exit: getting here means it did not finish
